@@ -673,3 +673,283 @@ def build(prog, d, control=False):
     if where == 'any':
         return src, None
     return src, {pos[t] for t in where}
+
+
+# --------------------------------------------------------------------------
+# repeat families: the offending construct (jump target, CONST operand, whole
+# statement) ALSO occurs, validly or verbatim, elsewhere in the program.  A
+# compiler that remembers/caches/shares something per name or per node shows up
+# as an accepted fault or as a diagnostic on the line of the other occurrence.
+# Small self-contained programs; every case: {'family','kind','variant','src',
+# 'expect', 'lines_ok' (set of 1-based lines) | 'valid': True}.
+
+def _mk(rows):
+    """rows: list of (text, tag) -> (src, {tag: 1-based line})"""
+    src = '\n'.join(r[0] for r in rows) + '\n'
+    pos = {}
+    for n, (_t, tag) in enumerate(rows):
+        if tag is not None:
+            pos.setdefault(tag, n + 1)
+    return src, pos
+
+
+JUMPS = {
+    'goto': 'GOTO {t}', 'gosub': 'GOSUB {t}', 'restore': 'RESTORE {t}', 'return': 'RETURN {t}',
+    'on-error': 'ON ERROR GOTO {t}',
+}
+FAULT_JUMPS = ['goto', 'gosub', 'restore', 'return']
+JUMP_WRAPPERS = ['plain', 'ifthen', 'colon', 'ifelse']
+
+
+def _routine(kind, name, body):
+    """kind 'main' | 'sub' | 'function' -> rows"""
+    if kind == 'main':
+        return body
+    if kind == 'sub':
+        return [(f'SUB {name}', None)] + body + [('END SUB', None)]
+    return [(f'FUNCTION {name}%', None)] + body + [(f'  {name}% = 1', None), ('END FUNCTION', None)]
+
+
+def label_reuse_cases():
+    """A label / line number owned by one routine is the target of 0..2 VALID jumps
+    inside its routine and of one jump from ANOTHER routine (LABEL_NOT_DEFINED on
+    the line of that jump).  Bounded exhaustive over: the faulty jump (GOTO, GOSUB,
+    RESTORE, RETURN) x the valid jump (the same four + ON ERROR GOTO for a module
+    level label + none) x label / line number x (owner routine, jumping routine) in
+    {main, SUB, FUNCTION} x source order of the two routines x valid jump before /
+    after the label definition; the wrapper of the faulty jump rotates.  Controls:
+    the same text without the foreign jump is accepted."""
+    out = []
+    pairs = [('main', 'sub'), ('main', 'function'), ('sub', 'main'), ('function', 'main'),
+             ('sub', 'sub'), ('function', 'sub')]
+    n = 0
+    seen_ctrl = set()
+    for form in ('label', 'lineno'):
+        t = 'zqtgt' if form == 'label' else '4100'
+        deflines = [('zqtgt:', None)] if form == 'label' else [('4100 zqn% = zqn% + 1', None)]
+        for (own, oth) in pairs:
+            # RESTORE / ON ERROR GOTO refer to module level labels (DATA is module level):
+            # they are valid jumps only in the main module, and RESTORE <module label>
+            # inside a procedure is not counted as a fault
+            valids = ['goto', 'gosub', 'return', 'none'] + (['restore', 'on-error'] if own == 'main' else [])
+            for vj in valids:
+                for direction in ('back', 'fwd'):
+                    if vj == 'none' and direction == 'fwd':
+                        continue
+                    vline = [] if vj == 'none' else [('IF zqn% < 3 THEN ' + JUMPS[vj].format(t=t), 'valid')]
+                    body = [('zqn% = zqn% + 1', None)]
+                    if own == 'main':
+                        body.append(('DATA 1, 2', None))
+                    owner_body = (deflines + body + vline) if direction == 'back' else (vline + deflines + body)
+                    for order in ('owner-first', 'other-first'):
+                        for fj in FAULT_JUMPS:
+                            if fj == 'restore' and own == 'main':
+                                continue
+                            w = JUMP_WRAPPERS[n % len(JUMP_WRAPPERS)]
+                            n += 1
+                            for ctrl in (False, True):
+                                fl = ('zqok% = 1', 'fault') if ctrl else (wrap(JUMPS[fj].format(t=t), w), 'fault')
+                                other_body = [('zqm% = 2', None), fl, ('zqm% = 3', None)]
+                                ro = _routine(own, 'zqown', owner_body)
+                                rt = _routine(oth, 'zqoth', other_body)
+                                rows = (ro + rt) if order == 'owner-first' else (rt + ro)
+                                src, pos = _mk(rows)
+                                if ctrl:
+                                    if src in seen_ctrl:
+                                        continue
+                                    seen_ctrl.add(src)
+                                    out.append({'family': 'label-reuse', 'kind': 'control:label-reuse',
+                                                'variant': f'{form}/{own}->{oth}/valid-{vj}-{direction}/{order}',
+                                                'src': src, 'valid': True})
+                                else:
+                                    out.append({
+                                        'family': 'label-reuse',
+                                        'kind': 'label-in-other-routine-reused' if vj != 'none'
+                                        else 'label-in-other-routine',
+                                        'variant': f'{fj}/{w}/{form}/{oth}-jumps-into-{own}/'
+                                                   f'valid-{vj}-{direction}/{order}',
+                                        'src': src, 'expect': C('LABEL_NOT_DEFINED'),
+                                        'lines_ok': {pos['fault']}})
+    return out
+
+
+# templates whose offending operand is {K}: (kind, name, pre, stmt lines, fault index,
+# prepend helpers, append helpers)
+_SUBS = ['SUB zqs (a AS INTEGER)', 'END SUB']
+_SUBS2 = ['SUB zqs2 (a AS STRING)', 'END SUB']
+_FUNI = ['FUNCTION zqf% (zqp AS INTEGER)', '  zqf% = zqp', 'END FUNCTION']
+_FUNS = ['FUNCTION zqg% (zqp AS STRING)', '  zqg% = LEN(zqp)', 'END FUNCTION']
+_FUN2 = ['FUNCTION zqh% (zqp AS INTEGER, zqq AS LONG)', '  zqh% = zqp', 'END FUNCTION']
+
+CONST_STR_TEMPLATES = [      # {K} is a STRING constant where a number is demanded
+    ('assign-mismatch', 'int=K', [], ['zqa% = {K}'], 0, [], []),
+    ('assign-mismatch', 'dbl=K', [], ['zqa# = {K}'], 0, [], []),
+    ('assign-mismatch', 'elem=K', ['DIM zqar(3) AS INTEGER'], ['zqar(1) = {K}'], 0, [], []),
+    ('assign-mismatch', 'field=K', ['DIM zqr AS zqt'], ['zqr.a = {K}'], 0, TYPE_HELPER, []),
+    ('binop-mismatch', 'int+K', [], ['zqa% = 1 + {K}'], 0, [], []),
+    ('binop-mismatch', 'K*int', [], ['PRINT {K} * 2'], 0, [], []),
+    ('binop-mismatch', 'and-K', [], ['PRINT 1 AND {K}'], 0, [], []),
+    ('binop-mismatch', 'mod-K', [], ['zqa% = 2 MOD {K}'], 0, [], []),
+    ('binop-mismatch', 'neg-K', [], ['zqa% = -{K}'], 0, [], []),
+    ('binop-mismatch', 'not-K', [], ['PRINT NOT {K}'], 0, [], []),
+    ('binop-mismatch', 'int<K', [], ['zqa% = 1 < {K}'], 0, [], []),
+    ('cond-if-string', 'single-line', [], ['IF {K} THEN zqa% = 1'], 0, [], []),
+    ('cond-if-string', 'block', [], ['IF {K} THEN', '  zqa% = 1', 'END IF'], 0, [], []),
+    ('cond-if-string', 'elseif', [], ['IF zqa% THEN', 'ELSEIF {K} THEN', 'END IF'], 1, [], []),
+    ('cond-while', 'while', [], ['WHILE {K}', 'WEND'], 0, [], []),
+    ('cond-do-string', 'do-while', [], ['DO WHILE {K}', 'LOOP'], 0, [], []),
+    ('cond-do-string', 'do-until', [], ['DO UNTIL {K}', 'LOOP'], 0, [], []),
+    ('cond-do-string', 'loop-while', [], ['DO', 'LOOP WHILE {K}'], 1, [], []),
+    ('cond-do-string', 'loop-until', [], ['DO', 'LOOP UNTIL {K}'], 1, [], []),
+    ('sub-arg-mismatch', 'implicit-call', [], ['zqs {K}'], 0, [], _SUBS),
+    ('sub-arg-mismatch', 'call', [], ['CALL zqs({K})'], 0, [], _SUBS),
+    ('function-arg-mismatch', 'assign', [], ['zqa% = zqf%({K})'], 0, [], _FUNI),
+    ('function-arg-mismatch', 'print', [], ['PRINT zqf%({K})'], 0, [], _FUNI),
+    ('function-arg-mismatch', 'second-arg', [], ['zqa% = zqh%(1, {K})'], 0, [], _FUN2),
+    ('function-arg-mismatch', 'in-expression', [], ['zqa% = 2 * zqf%({K}) + 1'], 0, [], _FUNI),
+    ('array-index-mismatch', 'store', ['DIM zqar(5) AS INTEGER'], ['zqar({K}) = 1'], 0, [], []),
+    ('array-index-mismatch', 'load', ['DIM zqar(5) AS INTEGER'], ['PRINT zqar({K})'], 0, [], []),
+    ('builtin-arg-mismatch', 'chr', [], ['zqb$ = CHR$({K})'], 0, [], []),
+    ('builtin-arg-mismatch', 'int', [], ['PRINT INT({K})'], 0, [], []),
+    ('builtin-arg-mismatch', 'left', [], ['PRINT LEFT$("abc", {K})'], 0, [], []),
+    ('for-bound-string', 'from', [], ['FOR zqi% = {K} TO 2', 'NEXT'], 0, [], []),
+    ('for-bound-string', 'to', [], ['FOR zqi% = 1 TO {K}', 'NEXT'], 0, [], []),
+    ('for-bound-string', 'step', [], ['FOR zqi% = 1 TO 2 STEP {K}', 'NEXT'], 0, [], []),
+    ('select-case-mismatch', 'case', [], ['SELECT CASE zqa%', 'CASE {K}', 'END SELECT'], 1, [], []),
+    ('select-case-mismatch', 'case-second', [], ['SELECT CASE zqa%', 'CASE 1, {K}', 'END SELECT'], 1, [], []),
+    ('select-case-mismatch', 'range', [], ['SELECT CASE zqa%', 'CASE 1 TO {K}', 'END SELECT'], 1, [], []),
+    ('select-case-mismatch', 'is', [], ['SELECT CASE zqa%', 'CASE IS > {K}', 'END SELECT'], 1, [], []),
+    ('select-case-mismatch', 'selector', [], ['SELECT CASE {K}', 'CASE 1', 'END SELECT'], 1, [], []),
+]
+CONST_NUM_TEMPLATES = [      # {K} is a NUMERIC constant where a string is demanded
+    ('assign-mismatch', 'str=K', [], ['zqa$ = {K}'], 0, [], []),
+    ('assign-mismatch', 'strfield=K', ['DIM zqr AS zqt'], ['zqr.b = {K}'], 0, TYPE_HELPER, []),
+    ('binop-mismatch', 'str+K', [], ['zqa$ = "foo" + {K}'], 0, [], []),
+    ('binop-mismatch', 'K<str', [], ['zqa% = {K} < "a"'], 0, [], []),
+    ('sub-arg-mismatch', 'num-for-string', [], ['zqs2 {K}'], 0, [], _SUBS2),
+    ('sub-arg-mismatch', 'call-num-for-string', [], ['CALL zqs2({K})'], 0, [], _SUBS2),
+    ('function-arg-mismatch', 'num-for-string', [], ['zqa% = zqg%({K})'], 0, [], _FUNS),
+    ('function-arg-mismatch', 'print-num-for-string', [], ['PRINT zqg%({K})'], 0, [], _FUNS),
+    ('builtin-arg-mismatch', 'len', [], ['PRINT LEN({K})'], 0, [], []),
+    ('builtin-arg-mismatch', 'asc', [], ['PRINT ASC({K})'], 0, [], []),
+    ('builtin-arg-mismatch', 'ucase', [], ['zqa$ = UCASE$({K})'], 0, [], []),
+    ('print-using-format', 'format', [], ['PRINT USING {K}; 1'], 0, [], []),
+    ('select-case-mismatch', 'num-case', ['zqb$ = "v"'], ['SELECT CASE zqb$', 'CASE {K}', 'END SELECT'], 1, [], []),
+    ('select-case-mismatch', 'num-range', ['zqb$ = "v"'], ['SELECT CASE zqb$', 'CASE "a" TO {K}', 'END SELECT'],
+     1, [], []),
+    ('select-case-mismatch', 'num-selector', [], ['SELECT CASE {K}', 'CASE "a"', 'END SELECT'], 1, [], []),
+]
+CONST_STR_VALUES = [('zqk$', '"s"', 'literal'), ('zqk$', '"a" + "b"', 'composite')]
+CONST_NUM_VALUES = [('zqk%', '5', 'int-literal'), ('zqk', '5', 'untyped-literal'),
+                    ('zqk#', '2.5', 'double-literal'), ('zqk&', '2 + 3', 'composite')]
+CONST_PLACEMENTS = ['alone', 'before', 'after', 'both', 'after-in-sub', 'before-and-after-in-sub']
+CONST_CONTEXTS = ['main', 'in-sub-global-const', 'in-sub-local-const']
+
+
+def const_operand_cases():
+    """Every type / argument fault template with the offending operand a CONST
+    (string or numeric; literal or composite value) that is ALSO referenced validly
+    on other lines: none / before / after / both / later inside a SUB; the faulty
+    statement at module level or inside a SUB (global or local CONST).  Expected:
+    TYPE_MISMATCH on the line of the faulty statement.  Controls: the same text
+    with the faulty statement replaced by a valid one is accepted."""
+    out = []
+    seen_ctrl = set()
+    for templates, values, is_str in ((CONST_STR_TEMPLATES, CONST_STR_VALUES, True),
+                                      (CONST_NUM_TEMPLATES, CONST_NUM_VALUES, False)):
+        for (kind, name, pre, stmt, fault, prepend, append) in templates:
+            for (cn, cv, cvname) in values:
+                use1 = f'PRINT {cn}'
+                use2 = f'zqu$ = {cn} + "x"' if is_str else f'zqu# = {cn} * 2'
+                for plc in CONST_PLACEMENTS:
+                    for cx in CONST_CONTEXTS:
+                        if cx == 'in-sub-local-const' and 'in-sub' in plc:
+                            continue
+                        for ctrl in (False, True):
+                            decl = [(f'CONST {cn} = {cv}', None)]
+                            body = []
+                            if plc in ('before', 'both', 'before-and-after-in-sub'):
+                                body += [(use1, None), (use2, None)]
+                            body += [(x, None) for x in pre]
+                            if ctrl:
+                                body.append(('zqok% = 1', None))
+                            else:
+                                body += [(x.replace('{K}', cn), 'fault' if i == fault else None)
+                                         for i, x in enumerate(stmt)]
+                            body.append(('zqv% = 1', None))
+                            if plc in ('after', 'both'):
+                                body += [(use2, None), (use1, None)]
+                            tail = []
+                            if 'in-sub' in plc:
+                                tail = [('SUB zqref', None), (use1, None), ('END SUB', None)]
+                            hp = [(x, None) for x in prepend]
+                            ha = [(x, None) for x in append]
+                            if cx == 'main':
+                                rows = decl + hp + body + tail + ha
+                            elif cx == 'in-sub-global-const':
+                                rows = decl + hp + [('zqhost', None), ('SUB zqhost', None)] + body + \
+                                    [('END SUB', None)] + tail + ha
+                            else:
+                                rows = hp + [('zqhost', None), ('SUB zqhost', None)] + decl + body + \
+                                    [('END SUB', None)] + tail + ha
+                            src, pos = _mk(rows)
+                            var = f'{name}/{cvname}/{plc}/{cx}'
+                            if ctrl:
+                                if src in seen_ctrl:
+                                    continue
+                                seen_ctrl.add(src)
+                                out.append({'family': 'const-operand', 'kind': 'control:const-operand',
+                                            'variant': var, 'src': src, 'valid': True})
+                            else:
+                                out.append({'family': 'const-operand', 'kind': f'{kind}:const-operand',
+                                            'variant': var, 'src': src, 'expect': TM(),
+                                            'lines_ok': {pos['fault']}})
+    return out
+
+
+DUP_EXCLUDE_WRAP = {'label'}
+
+
+def duplicated_statement_cases():
+    """Every variant of every statement-style fault kind of the catalogue, with the
+    offending statement (its pre lines once) repeated verbatim 1..2 more times
+    further down, separated by valid lines, at module level and inside a SUB:
+    the diagnostic must be on the FIRST occurrence (both occurrences are checked by
+    the same pass in source order).  The valid helper lines are not repeated."""
+    out = []
+    for kind, variants in sorted(STMT_KINDS.items()):
+        for v in variants:
+            if any(has_label(x) for x in v.stmt + v.pre):
+                continue            # repeating a label definition is another fault
+            for cx in ('main', 'sub', 'function'):
+                c = {'stack': [] if cx == 'main' else [{'kind': cx}],
+                     'routine': ('main', None) if cx == 'main' else (cx, 'zqhost')}
+                if v.only is not None and not v.only(c):
+                    continue
+                if cx != 'main' and any(re.match(r'^\s*(DIM SHARED|DATA)\b', x) for x in v.pre + v.stmt):
+                    continue
+                for reps in (2, 3):
+                    body = [(x, None) for x in v.pre]
+                    for r in range(reps):
+                        body += [(x, 'fault' if (i == v.fault and r == 0) else None)
+                                 for i, x in enumerate(v.stmt)]
+                        body += [(y, None) for y in v.post]
+                        body.append((f'zqsep{r}% = {r}', None))
+                    hp = [(x, None) for x in v.prepend]
+                    ha = [(x, None) for x in v.append]
+                    if cx == 'main':
+                        rows = hp + body + ha
+                    elif cx == 'sub':
+                        rows = hp + [('zqhost', None), ('SUB zqhost', None)] + body + [('END SUB', None)] + ha
+                    else:
+                        rows = hp + [('zqx% = zqhost%', None), ('FUNCTION zqhost%', None)] + body + \
+                            [('END FUNCTION', None)] + ha
+                    src, pos = _mk(rows)
+                    out.append({'family': 'duplicated-statement', 'kind': f'{kind}:repeated',
+                                'variant': f'{v.name}/x{reps}/{cx}', 'src': src, 'expect': v.expect,
+                                'lines_ok': {pos['fault']}})
+    return out
+
+
+def repeat_families():
+    return label_reuse_cases() + const_operand_cases() + duplicated_statement_cases()
